@@ -199,6 +199,8 @@ def build_ops(case, cb):
     case["arcs"] (optional): {"n1-n2": third point} circular-arc edges on lattice edges, defined by every block that uses them"""
     ops = []
     arcs = case.get("arcs") or {}
+    first_only = case.get("arcs_by") == "first"  # only the block added first defines a shared arc (later ones get it from the mesh)
+    defined = set()
     for blk in case["blocks"]:
         pts = np.array(blk["pts"], dtype=float)
         op = cb.Loft(cb.Face(pts[:4]), cb.Face(pts[4:]))
@@ -206,8 +208,9 @@ def build_ops(case, cb):
             if not arcs:
                 break
             key = pair_key(blk["nodes"][e[0]], blk["nodes"][e[1]])
-            if key in arcs:
+            if key in arcs and not (first_only and key in defined):
                 set_edge(op, e[0], e[1], cb.Arc(list(arcs[key])))
+                defined.add(key)
         for axis, kw in blk["chops"]:
             op.chop(axis, **kw)
         for side, name in (blk.get("patches") or {}).items():
